@@ -126,6 +126,7 @@ package parser
 //@ func (*lexer).linebreak
 //@   loop "for" decreases[C01] srclen() - srcpos() if len(l.aliases) == 0
 //@   ensures[C09] stays-in-the-source: old(len(l.aliases)) == 0 ==> len(l.aliases) == 0
+//@   ensures[C07 C08] no-newline-is-skipped-while-here-documents-are-pending: old(l.heredoc.n) != 0 && old(len(l.aliases)) == 0 ==> srcpos() == old(srcpos()) || (srcpos() >= 1 && !(exists k: old(srcpos()) <= k && k < srcpos() && srcrune(k) == '\n'))
 //@   ensures[C09] stops-before-the-next-token: result && old(len(l.aliases)) == 0 ==> srcpos() < srclen() && srcrune(srcpos()) != ' ' && srcrune(srcpos()) != '\t' && srcrune(srcpos()) != '\n' && srcrune(srcpos()) != '#'
 //@   site NEXT = call parser.(*lexer).read
 //@   assert[C09 C04] at call parser.(*lexer).mark#2: comment-starts-at-its-first-hash: !at(NEXT, hash)
@@ -218,11 +219,13 @@ package parser
 //@   ensures[C07 C03] after-a-pipe-the-next-command: tok == '|' && result != nil ==> returnsmethod("lexNextCmd")
 //@   ensures[C07 C03] after-an-and-or-operator-a-pipeline: (tok == AND || tok == OR) && result != nil ==> returnsmethod("lexPipeline")
 //@   ensures[C07 C03] after-a-separator-a-pipeline: tok == '&' || tok == ';' ==> returnsmethod("lexPipeline")
+//@   ensures[C03 C08] pending-here-documents-are-not-dropped-at-the-end-of-input: tok == 0 && old(l.heredoc.n) != 0 ==> returnsmethod("lexHeredoc")
+//@   ensures[C08] a-substitution-does-not-end-with-a-here-document-pending: (tok == ')' || tok == RAE) && l.cmdSubst != 0 && old(len(l.stack)) == 1 ==> old(l.heredoc.n) == 0
 //@   ensures[C07 C08] pending-here-documents-are-read-at-the-newline: tok == '\n' && old(l.heredoc.n) != 0 ==> returnsmethod("lexHeredoc")
 //@   requires tok != NAME && tok != ASSIGNMENT_WORD
 //@   ensures[C07] newline-ends-the-command: tok == '\n' && old(l.heredoc.n) == 0 && old(len(l.aliases)) == 0 && old(len(l.stack)) == 0 ==> result == nil && srcpos() == old(srcpos())
 //@   requires tok == WORD || tok == IO_NUMBER || tok <= 0 || tokready(l)
-//@   requires tok == '\n' ==> len(l.word) == 0
+//@   requires tok == '\n' || tok == 0 ==> len(l.word) == 0
 //@ func (*lexer).lexCmd
 //@   requires tok != NAME && tok != ASSIGNMENT_WORD
 //@   site OP = call parser.(*lexer).emit#1
